@@ -19,6 +19,28 @@ def generate(c):
         c.tool_error(f"Analyzer BFS failed: {r.violated} {r.error_text} {r.raw_tail[-800:]}")
     cases = list(r.tagged.get("CASE", []))
     stats = {"bfs_states": r.distinct, "bfs_programs": len(cases)}
+    f = run_tlc("analyzer", "MCAnalyzer", "MCAnalyzer_std.cfg", workers=8, timeout=2400, xss="512m", cache_key="std", keep_tags={"CASE"}, coverage=False)
+    if not f.ok:
+        c.tool_error(f"Analyzer focus family (std collisions) failed: {f.violated} {f.error_text} {f.raw_tail[-800:]}")
+    focus, seenp = [], set()
+    for x in f.tagged.get("CASE", []):
+        key = json.dumps(x["prog"], sort_keys=True)
+        if key not in seenp and any(i["op"] == "std" for i in x["prog"]):
+            seenp.add(key); focus.append(x)
+    cases += focus
+    stats["focus_std_programs"] = len(focus)
+    w = run_tlc("analyzer", "MCAnalyzer", "MCAnalyzer_switch.cfg", workers=8, timeout=2400, xss="512m", cache_key="switch", keep_tags={"CASE"}, coverage=False)
+    if not w.ok:
+        c.tool_error(f"Analyzer focus family (switch) failed: {w.violated} {w.error_text} {w.raw_tail[-800:]}")
+    sw, seenw = [], set()
+    for x in w.tagged.get("CASE", []):
+        key = json.dumps(x["prog"], sort_keys=True)
+        if key not in seenw and any(i["op"] == "switch" for i in x["prog"]):
+            seenw.add(key); sw.append(x)
+    if c.quick and len(sw) > 12000:      # quick tier: a stride sample of the family
+        sw = sw[::(len(sw) // 12000 + 1)]
+    cases += sw
+    stats["focus_switch_programs"] = len(sw)
     nsim = 80 if c.quick else 3000
     # the simulation is deterministic for a seed: cached so that the five analyser checks share one TLC run per (tier, seed)
     s = run_tlc("analyzer", "MCAnalyzer", "MCAnalyzer_sim.cfg", workers=1, timeout=3000, xss="512m", simulate=nsim, depth=14, seed=c.seed, keep_tags={"CASE"},
